@@ -419,7 +419,17 @@ inductive FileArg where
   | binary                      -- a file-like object whose `read(0)` returns `bytes`
   | text                        -- a file-like object whose `read(0)` returns something else
   | noRead                      -- neither a path nor an object with a `read` method
+  | lateBad (e : Exc)           -- `read(0)` returns `bytes`, every later `read(n)` fails: `e = typeError` (it
+                                -- returns something that is not `bytes`), `osError` (it raises an `OSError` with
+                                -- an errno, which `PyFileRead` turns into a Rust `io::Error`), or any other
+                                -- exception it raises (left PENDING by `PyFileRead` behind a generic `io::Error`)
 deriving Repr, DecidableEq
+
+/-- readers whose constructor already reads from the file (`Reader::new` of jaspar / jaspar16 looks for the
+    first `>`; the TRANSFAC reader fills its first line) and DROPS an `io::Error` met there; the UniPROBE
+    reader reads nothing before the first record is asked for -/
+def readsAtCreation (format : String) : Bool :=
+  format = "jaspar" || format = "jaspar16" || format = "transfac"
 
 /-- `Loader.__init__(file, format, protein)`: the file is opened first, then the format is dispatched -/
 def loaderInit (file : FileArg) (format : String) (protein : Bool) : Res :=
@@ -427,6 +437,16 @@ def loaderInit (file : FileArg) (format : String) (protein : Bool) : Res :=
   | .path false => .error .osError
   | .text => .error .typeError
   | .noRead => .error .attributeError
+  | .lateBad e =>
+    -- the format is dispatched before anything is read; a Python exception left pending by a read made
+    -- while the reader is created is raised by `Loader.__init__` itself (never a result with an exception
+    -- set); an `io::Error` without a pending exception is dropped there and met again at the first record
+    let pending := e != .osError && readsAtCreation format
+    if format = "jaspar" then (if protein then .error .valueError else if pending then .error e else .ok (.app1 .readJaspar (.arg "file")))
+    else if format = "jaspar16" then (if pending then .error e else .ok (.app1 .readJaspar16 (.arg "file")))
+    else if format = "transfac" then (if pending then .error e else .ok (.app1 .readTransfac (.arg "file")))
+    else if format = "uniprobe" then .ok (.app1 .readUniprobe (.arg "file"))
+    else .error .valueError
   | _ =>
     if format = "jaspar" then (if protein then .error .valueError else .ok (.app1 .readJaspar (.arg "file")))
     else if format = "jaspar16" then .ok (.app1 .readJaspar16 (.arg "file"))
@@ -437,6 +457,7 @@ def loaderInit (file : FileArg) (format : String) (protein : Bool) : Res :=
 /-- what a reader yields for one record -/
 inductive RecordResult where
   | errIo | errData | errParse
+  | errPy (e : Exc)              -- an I/O error behind which a Python exception is pending (file objects)
   | ok (hasCounts : Bool)        -- TRANSFAC: `to_counts()` may be `None`
 deriving Repr, DecidableEq
 
@@ -444,6 +465,7 @@ deriving Repr, DecidableEq
 def convertRecord (format : String) (r : RecordResult) : Res :=
   match r with
   | .errIo => .error .osError
+  | .errPy e => .error e
   | .errData => .error .valueError
   | .errParse => .error .valueError
   | .ok hasCounts =>
